@@ -307,6 +307,7 @@ def simpleImpl (id : Nat) (args : List VRes) : EM (Option Val) :=
   | 10, [.ok (.bytes a), .ok (.bytes b)] => .ok (some (.int (a.length + b.length)))  -- len2
   | 10, [.ok (.bytes a), .error _] => .ok (some (.int ((a.length : Int) - 1)))
   | 10, [.error _, _] => .ok none
+  | 11, [] => .ok (some (.bool true))                                  -- nil0()
   | _, _ => .error .badFunction
 
 /-- `concat_impl` -/
